@@ -171,6 +171,7 @@ func c07Case(t *T) {
 		if len(s1) > 0 {
 			t.Count("steps.not_allowed", 1)
 		}
+		t.Tracef("step %d %s %q: uncached -> route %q {%s} allowed %v; cached(cap %d) -> route %q {%s} allowed %v", step, q.m, q.p, n1, fmtParams(copyParams(p1)), s1, capacity, n2, fmtParams(copyParams(p2)), s2)
 		if (r1 == nil) != (r2 == nil) || n1 != n2 {
 			t.Fail("match-route-differs", "step %d %s %q: without cache -> route %q, with cache(cap %d) -> route %q", step, q.m, q.p, n1, capacity, n2)
 			return
